@@ -19,6 +19,7 @@ import (
 	"github.com/cloudflare/circl/group"
 	"github.com/cloudflare/circl/oprf"
 	"github.com/cloudflare/pat-go/tokens/type1"
+	"github.com/cloudflare/pat-go/tokens/type2"
 	"github.com/cloudflare/pat-go/tokens/type3"
 	"github.com/cloudflare/pat-go/tokens/type5"
 
@@ -223,6 +224,115 @@ func run(p P) *mc.Viol {
 	return nil
 }
 
+// runReuse: a sequence of honest issuances in which the issuer decodes every request into
+// ONE request object that it keeps between requests (and the client keeps one client value).
+type reuseP struct {
+	T   int   `json:"type"`
+	Key int   `json:"key"`
+	Seq []int `json:"batch_sizes_or_challenge_lens"`
+}
+
+func runReuse(p reuseP) *mc.Viol {
+	lbl := fmt.Sprintf("reuse-t%d-k%d-%v", p.T, p.Key, p.Seq)
+	mc.Entropy("c01-" + lbl)
+	fail := func(step int, what string, err error) *mc.Viol {
+		return &mc.Viol{Sig: fmt.Sprintf("type%d honest issuance fails when the issuer reuses its request object: %s", p.T, what), What: fmt.Sprintf("%s step %d: %v", lbl, step, err)}
+	}
+	switch p.T {
+	case 1:
+		w := px.NewW1(p.Key)
+		req := new(type1.BasicPrivateTokenRequest)
+		for i, cl := range p.Seq {
+			chal, n := mc.Fill(seedBase, fmt.Sprintf("%s-chal-%d", lbl, i), cl), mc.Fill(seedBase, fmt.Sprintf("%s-n-%d", lbl, i), 32)
+			st, err := w.Create(chal, n, nil)
+			if err != nil {
+				return fail(i, "client-create", err)
+			}
+			if !req.Unmarshal(append([]byte{}, st.Request().Marshal()...)) {
+				return fail(i, "issuer-decode", fmt.Errorf("rejected"))
+			}
+			resp, err := w.Issuer.Evaluate(req)
+			if err != nil {
+				return fail(i, "issuer-evaluate", err)
+			}
+			tok, err := st.FinalizeToken(resp)
+			if err != nil {
+				return fail(i, "client-finalize", err)
+			}
+			if err := px.CheckLayout(tok.Marshal(), 1, n, chal, w.KeyID); err != nil {
+				return fail(i, "token layout", err)
+			}
+			if err := px.VerifyOPRFToken(oprf.SuiteP384, w.KeyBytes, tok.Marshal()); err != nil {
+				return fail(i, "token invalid", err)
+			}
+		}
+	case 2:
+		w := px.NewW2(p.Key)
+		req := new(type2.BasicPublicTokenRequest)
+		for i, cl := range p.Seq {
+			chal, n := mc.Fill(seedBase, fmt.Sprintf("%s-chal-%d", lbl, i), cl), mc.Fill(seedBase, fmt.Sprintf("%s-n-%d", lbl, i), 32)
+			st, err := w.Create(chal, n, nil, nil)
+			if err != nil {
+				return fail(i, "client-create", err)
+			}
+			if !req.Unmarshal(append([]byte{}, st.Request().Marshal()...)) {
+				return fail(i, "issuer-decode", fmt.Errorf("rejected"))
+			}
+			resp, err := w.Issuer.Evaluate(req)
+			if err != nil {
+				return fail(i, "issuer-evaluate", err)
+			}
+			tok, err := st.FinalizeToken(resp)
+			if err != nil {
+				return fail(i, "client-finalize", err)
+			}
+			if err := px.CheckLayout(tok.Marshal(), 2, n, chal, w.KeyID); err != nil {
+				return fail(i, "token layout", err)
+			}
+			if err := px.VerifyRSAToken(&w.Key.PublicKey, tok.Marshal()); err != nil {
+				return fail(i, "token invalid", err)
+			}
+		}
+	case 5:
+		w := px.NewW5(p.Key)
+		req := new(type5.BatchedPrivateTokenRequest)
+		for i, b := range p.Seq {
+			chal := mc.Fill(seedBase, fmt.Sprintf("%s-chal-%d", lbl, i), 32)
+			var ns [][]byte
+			for j := 0; j < b; j++ {
+				ns = append(ns, mc.Fill(seedBase, fmt.Sprintf("%s-n-%d-%d", lbl, i, j), 32))
+			}
+			st, err := w.Create(chal, ns, nil)
+			if err != nil {
+				return fail(i, "client-create", err)
+			}
+			if !req.Unmarshal(append([]byte{}, st.Request().Marshal()...)) {
+				return fail(i, "issuer-decode", fmt.Errorf("rejected"))
+			}
+			resp, err := w.Issuer.Evaluate(req)
+			if err != nil {
+				return fail(i, "issuer-evaluate", err)
+			}
+			toks, err := st.FinalizeTokens(resp)
+			if err != nil {
+				return fail(i, "client-finalize", err)
+			}
+			if len(toks) != b {
+				return fail(i, "token count", fmt.Errorf("%d tokens for %d nonces", len(toks), b))
+			}
+			for j, t := range toks {
+				if err := px.CheckLayout(t.Marshal(), 5, ns[j], chal, w.KeyID); err != nil {
+					return fail(i, "token layout", err)
+				}
+				if err := px.VerifyOPRFToken(oprf.SuiteRistretto255, w.KeyBytes, t.Marshal()); err != nil {
+					return fail(i, "token invalid", err)
+				}
+			}
+		}
+	}
+	return nil
+}
+
 func runSafe(p P) (v *mc.Viol) {
 	if pn := mc.CatchStack(func() { v = run(p) }); pn != "" {
 		v = &mc.Viol{Sig: fmt.Sprintf("type%d honest flow panics: %s", p.T, trunc(pn, 60)), What: p.label() + ": " + pn}
@@ -254,6 +364,15 @@ func main() {
 		var p P
 		json.Unmarshal(pj, &p)
 		return runSafe(p)
+	})
+	r.RegisterReplay("reuse", func(pj json.RawMessage) *mc.Viol {
+		var p reuseP
+		json.Unmarshal(pj, &p)
+		var v *mc.Viol
+		if pn := mc.CatchStack(func() { v = runReuse(p) }); pn != "" {
+			return &mc.Viol{Sig: fmt.Sprintf("type%d honest flow panics: %s", p.T, trunc(pn, 60)), What: pn}
+		}
+		return v
 	})
 	if r.IsReplay() {
 		r.DoReplay()
@@ -360,6 +479,38 @@ func main() {
 			r.Sample(p)
 		}
 	})
+	// issuer-side object reuse: every permutation-free sequence of batch sizes / challenge lengths of length <= 3 (4)
+	var reuse []reuseP
+	alpha := map[int][]int{1: {0, 32, 255}, 2: {0, 32, 255}, 5: {1, 2, 3, 4}}
+	maxLen := mc.Pick(r, 3, 4)
+	for _, t := range []int{1, 2, 5} {
+		var build func(cur []int)
+		build = func(cur []int) {
+			if len(cur) >= 2 {
+				reuse = append(reuse, reuseP{T: t, Key: 0, Seq: append([]int{}, cur...)})
+			}
+			if len(cur) == maxLen {
+				return
+			}
+			for _, a := range alpha[t] {
+				build(append(cur, a))
+			}
+		}
+		build(nil)
+	}
+	r.Par(len(reuse), func(i int) {
+		var v *mc.Viol
+		if pn := mc.CatchStack(func() { v = runReuse(reuse[i]) }); pn != "" {
+			v = &mc.Viol{Sig: fmt.Sprintf("type%d honest flow panics: %s", reuse[i].T, trunc(pn, 60)), What: pn}
+		}
+		out := "valid-tokens"
+		if v != nil {
+			out = v.Sig
+			r.Violation("reuse", reuse[i], v)
+		}
+		r.Case(fmt.Sprintf("reuse-%+v", reuse[i]), v == nil, fmt.Sprintf("type%d-reused-request-object:%s", reuse[i].T, out))
+	})
+	r.Set("issuer_object_reuse_sequences", len(reuse))
 	_ = hex.EncodeToString
 	r.Finish()
 }
